@@ -475,9 +475,14 @@ class Client(ClientLike):
                 )
                 msg_list.remove(mt)
 
+        # types that are paused on entry go back to paused on exit
+        paused = [mt for mt in msg_list if mt in self.paused_subscribed_types]
+
         self.subscribe(msg_list)
         yield
         self.unsubscribe(msg_list)
+        if paused:
+            self.pause_subscription(paused)
 
     @contextmanager
     def paused_subscription_context(self, msg_list: Iterable[int]):
